@@ -174,7 +174,7 @@ PROPS = {
         fixtures=["tiny", "nest", "flat24"],
         gen_anchored=True,
         exhaustive_quick=True, exhaustive_thorough=True,
-        stages=[dict(test="TestC06Enum", kind="enum", quick=1, thorough=1), dict(test="TestC06", kind="rapid", quick=2400, thorough=40000)],
+        stages=[dict(test="TestC06Enum", kind="enum", quick=1, thorough=1), dict(test="TestC06Long", kind="enum", quick=1, thorough=1, shards=5), dict(test="TestC06", kind="rapid", quick=2400, thorough=40000)],
         replay="TestReplayC06",
         rule="(H1, exhaustive) all words over {Add, Write} of length <= 8 (quick) / <= 11 (thorough), each followed by Close, x page size 1..4 x {uncompressed, snappy, gzip} on "
              "fixture tiny with numbered records; (H2) rapid histories on tiny/nest/flat24: ops Write | Add(rec) | Add x k with k in {1,2,max-1,max,max+1,2max,2max+1}, page size 1..16. "
